@@ -26,6 +26,10 @@ Shapes ==
     unarypair|-> [vars |-> V(2), ds |-> D2(2), scopes |-> << <<"v0">>, <<"v0","v1">> >>],
     isolated |-> [vars |-> V(3), ds |-> D2(3), scopes |-> << <<"v0","v1">> >>],
     isounary |-> [vars |-> V(3), ds |-> D2(3), scopes |-> << <<"v0","v1">>, <<"v2">> >>],
+    \* a variable without constraint in the middle / at the head of the lexical order, two of them between two constrained ones
+    isomid   |-> [vars |-> V(3), ds |-> D2(3), scopes |-> << <<"v0","v2">> >>],
+    isofirst |-> [vars |-> V(3), ds |-> <<2, 2, 3>>, scopes |-> << <<"v2","v1">> >>],
+    gap4     |-> [vars |-> V(4), ds |-> D2(4), scopes |-> << <<"v0","v3">>, <<"v3","v0">> >>],
     \* unary constraints on the other end, on the middle of a path, on the centre of a star, on every variable
     upair1   |-> [vars |-> V(2), ds |-> D2(2), scopes |-> << <<"v1">>, <<"v0","v1">> >>],
     upath    |-> [vars |-> V(3), ds |-> D2(3), scopes |-> << <<"v1">>, <<"v0","v1">>, <<"v1","v2">> >>],
